@@ -354,6 +354,80 @@ theorem C18_debug_spec (tg : Target κ ρ) (a : Args κ) (inplace : Bool) (chunk
 
 end Run
 
+/-! ### Independence of the hosting process's global generators (modules that draw from `np.random`) -/
+
+section HostState
+variable {κ ρ : Type} (env : GEnv κ ρ)
+
+/-- `Sim.init` starts by resetting the process-global generators from the sim's own seed, unconditionally — on every path
+    through `init` (population created or supplied by the caller). (Obligation on Generated/RunFacts.lean.) -/
+theorem C18_init_seeds_global : Gen.initSeedsGlobalFirst = true := by decide
+
+/-- **Frame, one member.** A not yet initialised member run in a process whose global generators are in ANY state
+    gives the sim the pure model gives: the configuration run alone with its seed. -/
+theorem C18_host_state_frame_single (t : Task κ ρ) (g : GState) (ht : t.sim.initSeed = none) :
+    (singleRunG env t.sim t g).map Prod.fst = runAlone env.pure t := by
+  rcases singleRunG_refines env t.sim t g (Or.inl ht) with ⟨er, h1, h2⟩ | ⟨r, g', h1, h2, _⟩
+  · simp [runAlone, h1, h2, Except.map]
+  · simp [runAlone, h1, h2, Except.map]
+
+/-- **Frame, parallel.** For all initial worker states (inherited from the parent at fork time), all effects of runs on
+    them, all schedules, worker assignments and copy policies: the pool whose runs READ the worker's generators returns
+    what the pure model returns. -/
+theorem C18_host_state_frame (tasks : List (Task κ ρ)) (share : Nat → Nat) (sched : List (Nat × Nat)) (w0 : Nat → GState)
+    (hfresh : ∀ t ∈ tasks, t.sim.initSeed = none) :
+    execParG env tasks share sched w0 = execPar env.pure tasks share sched :=
+  execParG_eq_execPar env tasks share sched w0 (fun t ht => Or.inl (hfresh t ht))
+
+/-- **Frame, serial loop** (the caller's process; member `k` starts from what member `k-1` left). -/
+theorem C18_host_state_frame_serial (tasks : List (Task κ ρ)) (g0 : GState) (hfresh : ∀ t ∈ tasks, t.sim.initSeed = none) :
+    (execSerialG env tasks g0).map Prod.fst = execSerial env.pure tasks :=
+  execSerialG_eq_execSerial env tasks g0 (fun t ht => Or.inl (hfresh t ht))
+
+/-- **Members do not depend on the hosting process.** Private copies, any schedule running each task once, any initial
+    states of the workers and of the caller's process: the parallel run equals the serial loop, and both equal the
+    members run alone with their seeds. -/
+theorem C18_members_independent_of_host_state (tasks : List (Task κ ρ)) (share : Nat → Nat) (sched : List (Nat × Nat))
+    (out : List (Sim κ ρ)) (w0 : Nat → GState) (g0 : GState)
+    (hfresh : ∀ t ∈ tasks, t.sim.initSeed = none)
+    (hpriv : Private tasks.length share)
+    (hperm : (sched.map (·.2)).Perm (List.range tasks.length))
+    (hser : (execSerialG env tasks g0).map Prod.fst = .ok out) :
+    execParG env tasks share sched w0 = .ok out ∧ tasks.mapM (runAlone env.pure) = .ok out := by
+  rw [C18_host_state_frame_serial env tasks g0 hfresh] at hser
+  rw [C18_host_state_frame env tasks share sched w0 hfresh]
+  exact ⟨C18_schedule_independent env.pure tasks share sched out hpriv hperm hser, hser⟩
+
+/-- **Counterexample for initialised members.** A sim that was initialised before being handed to the multi-run is not
+    initialised again by `run()`: its steps continue whatever the worker's generators hold, so a module reading them makes
+    the member depend on the hosting process; a fresh sim does not. (Why `hfresh` is needed.) -/
+theorem C18_initialised_reads_host_counterexample :
+    ((singleRunG (⟨fun _ _ g => g, fun _ _ g => g, id⟩ : GEnv Nat GState) ⟨1, 5, some 5, none⟩
+        ⟨⟨1, 5, some 5, none⟩, 0, false, none, none, true⟩ (.host 1)).toOption.map (·.1.results) ≠
+     (singleRunG (⟨fun _ _ g => g, fun _ _ g => g, id⟩ : GEnv Nat GState) ⟨1, 5, some 5, none⟩
+        ⟨⟨1, 5, some 5, none⟩, 0, false, none, none, true⟩ (.host 2)).toOption.map (·.1.results)) ∧
+    ((singleRunG (⟨fun _ _ g => g, fun _ _ g => g, id⟩ : GEnv Nat GState) (Sim.fresh 1 5)
+        ⟨Sim.fresh 1 5, 0, false, none, none, true⟩ (.host 1)).toOption.map (·.1.results) =
+     (singleRunG (⟨fun _ _ g => g, fun _ _ g => g, id⟩ : GEnv Nat GState) (Sim.fresh 1 5)
+        ⟨Sim.fresh 1 5, 0, false, none, none, true⟩ (.host 2)).toOption.map (·.1.results)) := by
+  refine ⟨by decide, by decide⟩
+
+/-- Non-vacuity: three fresh members whose "results" record the global state they were stepped from; two workers out of
+    order starting from different states, and one worker in order from another state, return the same members — each
+    stepped from `seeded <own seed>`. -/
+example :
+    (execParG (⟨fun c s g => (c, s, g), fun _ _ _ => .host 7, fun _ => .host 8⟩ : GEnv Nat (Nat × Int × GState))
+      [⟨Sim.fresh 1 10, 0, false, none, none, true⟩, ⟨Sim.fresh 1 20, 1, false, none, none, true⟩, ⟨Sim.fresh 2 30, 2, false, none, none, true⟩]
+      sharePrivate [(1, 2), (0, 0), (1, 1)] (fun w => .host w)).toOption.map (·.map (·.results)) =
+      some [some (1, 10, .seeded 10), some (1, 20, .seeded 20), some (2, 30, .seeded 30)] ∧
+    (execParG (⟨fun c s g => (c, s, g), fun _ _ _ => .host 7, fun _ => .host 8⟩ : GEnv Nat (Nat × Int × GState))
+      [⟨Sim.fresh 1 10, 0, false, none, none, true⟩, ⟨Sim.fresh 1 20, 1, false, none, none, true⟩, ⟨Sim.fresh 2 30, 2, false, none, none, true⟩]
+      sharePrivate [(0, 0), (0, 1), (0, 2)] (fun _ => .host 99)).toOption.map (·.map (·.results)) =
+      some [some (1, 10, .seeded 10), some (1, 20, .seeded 20), some (2, 30, .seeded 30)] := by
+  refine ⟨by decide, by decide⟩
+
+end HostState
+
 /-! ### Reduced statistics -/
 
 /-- **Permutation invariance, one time point.** Mean, variance (hence the `mean ± k·std` bounds for whatever
@@ -519,6 +593,67 @@ theorem C18_mean_bounds (sqrtF : Rat → Rat) (k qlo qhi : Rat) (row : List Rat)
   constructor
   · grind
   · intro hk; constructor <;> grind
+
+/-! ### The summary of a MultiSim (`reduce` → `msim.summary`, `summarize(method, how)`) -/
+
+/-- The regenerated default table of `Sim.summarize`. (Obligation on Generated/RunFacts.lean.) -/
+theorem C18_summarize_how_table :
+    Gen.summarizeHow = [("n_", .mean), ("new_", .mean), ("cum_", .last), ("timevec", .last), ("", .mean)] := by decide
+
+/-- `Sim.summarize` is a function of `self.results` alone — it reads no other attribute of the sim (no cached summary, no
+    flag), and its only write is `self.summary`. (Obligation on Generated/RunFacts.lean.) -/
+theorem C18_summarize_reads_results_only :
+    Gen.summarizeSelfReads = ["results"] ∧ Gen.summarizeSelfWrites = ["summary"] := by decide
+
+/-- `MultiSim.reduce` summarises the reduced sim AFTER overwriting its series and hands that summary to the MultiSim.
+    (Obligation on Generated/RunFacts.lean.) -/
+theorem C18_reduce_summary_recomputed : Gen.reduceSummaryRecomputed = true := by decide
+
+/-- the rule on sample keys (a test of `howFunc` on the regenerated table, not a proof about all keys) -/
+example : howFunc Gen.summarizeHow "cum_deaths" = .last ∧ howFunc Gen.summarizeHow "n_alive" = .mean ∧
+    howFunc Gen.summarizeHow "new_deaths" = .mean ∧ howFunc Gen.summarizeHow "sir_prevalence" = .mean ∧
+    howFunc Gen.summarizeHow "sir_cum_infections" = .last := by decide
+
+/-- **The summary of a reduced MultiSim is invariant to the order of the members.** -/
+theorem C18_reduced_summary_perm_invariant (sqrtF : Rat → Rat) (useMean : Bool) (k qlo qhi : Rat) (T : Nat) (key : String)
+    {m₁ m₂ : List (List Rat)} (h : m₁.Perm m₂) (hlen : ∀ m ∈ m₁, m.length = T) :
+    reducedSummary sqrtF useMean k qlo qhi key m₁ = reducedSummary sqrtF useMean k qlo qhi key m₂ := by
+  simp only [reducedSummary, C18_reduce_perm_invariant sqrtF useMean k qlo qhi T h hlen]
+
+/-- **The summary of a reduced MultiSim is the stated statistic of the members**: for a result summarised by its last
+    entry (cumulative results) it is the mean (`mean()`) resp. the median (`median()`) of the members' last entries. -/
+theorem C18_reduced_summary_last (sqrtF : Rat → Rat) (k qlo qhi : Rat) (key : String) (m : List Rat) (ms : List (List Rat))
+    (T : Nat) (hT : m.length = T + 1) (hk : howFunc Gen.summarizeHow key = .last) :
+    reducedSummary sqrtF true k qlo qhi key (m :: ms) = mean (rowAt (m :: ms) T) ∧
+    reducedSummary sqrtF false k qlo qhi key (m :: ms) = median (rowAt (m :: ms) T) := by
+  have hs := fun row => C18_reduce_is_statistic sqrtF k qlo qhi row
+  constructor
+  · simp only [reducedSummary, simSummary, howTable, hk, applyHow, reduce, hT, List.map_map]
+    rw [List.range_succ, List.map_append, List.getLast?_append]
+    simp [(hs _).1]
+  · simp only [reducedSummary, simSummary, howTable, hk, applyHow, reduce, hT, List.map_map]
+    rw [List.range_succ, List.map_append, List.getLast?_append]
+    simp [(hs _).2, median]
+
+/-- `MultiSim.summarize(method, how)` is invariant to the order of the members, for every `how`. -/
+theorem C18_msim_summarize_perm_invariant (v : Variant) (qs : List Rat) (h : How) (key : String) {m₁ m₂ : List (List Rat)}
+    (hp : m₁.Perm m₂) :
+    msimSummarize v .mean qs h key m₁ = msimSummarize v .mean qs h key m₂ ∧
+    msimSummarize .spec .median qs h key m₁ = msimSummarize .spec .median qs h key m₂ :=
+  C18_summarize_perm_invariant v qs (hp.map _)
+
+/-- `summarize(method='mean')` reports the mean of the members' summary numbers, each a function of that member's series -/
+theorem C18_msim_summarize_is_statistic (v : Variant) (qs : List Rat) (h : How) (key : String) (members : List (List Rat)) :
+    msimSummarize v .mean qs h key members =
+      .ok (.meanStd (mean (members.map (simSummary h key))) (variance 0 (members.map (simSummary h key)))
+        (variance 0 (members.map (simSummary h key)) / members.length)) ∧
+    msimSummarize v .all qs h key members = .ok (.all (members.map (simSummary h key))) := by
+  simp [msimSummarize, summarize]
+
+/-- concrete: three members, a cumulative key, `mean()` — the summary is the mean of the last entries (not member 0's) -/
+example : reducedSummary id true 2 (1/10) (9/10) "cum_deaths" [[0, 1, 4], [0, 2, 5], [0, 3, 9]] = 6 ∧
+    simSummary .default "cum_deaths" [0, 1, 4] = 4 := by
+  with_unfolding_all decide +kernel
 
 /-! ### Non-vacuity -/
 
